@@ -485,6 +485,82 @@ def Fields.WF (f : Fields) : Prop :=
   f.indexes < 2 ^ (16 * (modeShape f.mode).2.2.2.2.1) ∧
   f.indexes2 < 2 ^ (16 * (modeShape f.mode).2.2.2.2.2.1)
 
+/-! ### the discrete glue of `compress_mode0 … compress_mode7`: which index lists go with given endpoints
+
+Everything the float search decides (endpoints, p-bits, partition, rotation, index selector) is a PARAMETER here; what
+is computed is what the code computes from them with integer arithmetic: `sort_block`, the slices per subset,
+`closest_*` on the promoted endpoints, `merge2 / merge3`. -/
+
+/-- `Subset2Map::sort_block` / `Subset3Map::sort_block` (bcn_data.rs): counting sort of the keys
+`i | (subset(i) << 4)` through a bitset, then `block[count] = original[i & 0x0F]` for every set bit in ascending order -/
+def sortBlock {α : Type} (nSub : Nat) (subset : Nat → Nat) (block : List α) (d : α) : List α :=
+  let bitset := (List.range 16).foldl (fun b i => b ||| (1 <<< ((i ||| (subset i <<< 4)) % U8)) % U64) 0
+  (((List.range (16 * nSub)).filter fun i => bitset &&& (1 <<< i) != 0).map fun i => block.getD (i &&& 15) d).take 16
+
+/-- `count_zeros()`, `count_ones()`, … : number of pixels of subset `s` -/
+def subsetCount (subset : Nat → Nat) (s : Nat) : Nat := ((List.range 16).filter fun i => subset i = s).length
+
+/-- the slice `&reordered[split(s) .. split(s + 1)]` handed to `compress_rgb` / `compress_rgba` for subset `s` -/
+def subsetSlice {α : Type} (nSub : Nat) (subset : Nat → Nat) (block : List α) (d : α) (s : Nat) : List α :=
+  let before := ((List.range s).map (subsetCount subset)).foldl (· + ·) 0
+  ((sortBlock nSub subset block d).drop before).take (subsetCount subset s)
+
+def rgbOf (p : List Nat) : List Nat := [px p 0, px p 1, px p 2]
+
+/-- the index lists `compress_mode<f.mode>` passes to `Compressed::mode<f.mode>` together with the endpoints, p-bits,
+partition, rotation and index selector of `f`, for the 16 pixels `block` (`[r, g, b, a]`, not yet rotated):
+(`indexes`, `indexes2`) in the argument positions of `Fields`.  (`f.indexes`, `f.indexes2` are not read.) -/
+def indexesFor (f : Fields) (block : List (List Nat)) : Nat × Nat :=
+  let sub := subsetOf f.mode f.partition
+  let E := fun k => ep f.endpoints k
+  let P := fun k => px f.pBits k
+  if f.mode = 0 then
+    let b := block.map rgbOf
+    let ix := fun s => (closestRgb 3 (pPromoteRgb 4 (E (2 * s)) (P (2 * s))) (pPromoteRgb 4 (E (2 * s + 1)) (P (2 * s + 1)))
+      (subsetSlice 3 sub b [] s)).1
+    (merge3 3 (implP3 f.partition) (ix 0) (ix 1) (ix 2), 0)
+  else if f.mode = 1 then
+    let b := block.map rgbOf
+    let ix := fun s => (closestRgb 3 (pPromoteRgb 6 (E (2 * s)) (P s)) (pPromoteRgb 6 (E (2 * s + 1)) (P s))
+      (subsetSlice 2 sub b [] s)).1
+    (merge2 3 (implP2 f.partition) (ix 0) (ix 1), 0)
+  else if f.mode = 2 then
+    let b := block.map rgbOf
+    let ix := fun s => (closestRgb 2 (promoteRgb 5 (E (2 * s))) (promoteRgb 5 (E (2 * s + 1))) (subsetSlice 3 sub b [] s)).1
+    (merge3 2 (implP3 f.partition) (ix 0) (ix 1) (ix 2), 0)
+  else if f.mode = 3 then
+    let b := block.map rgbOf
+    let ix := fun s => (closestRgb 2 (pPromoteRgb 7 (E (2 * s)) (P (2 * s))) (pPromoteRgb 7 (E (2 * s + 1)) (P (2 * s + 1)))
+      (subsetSlice 2 sub b [] s)).1
+    (merge2 2 (implP2 f.partition) (ix 0) (ix 1), 0)
+  else if f.mode = 4 then
+    -- `compress_color_separate_alpha_with_rotation`: `block = rotation.apply(block)` first
+    let b := block.map (rotApply f.rotation)
+    let rgb := b.map rgbOf
+    let al := b.map fun p => px p 3
+    let c0 := promoteRgb 5 (E 0)
+    let c1 := promoteRgb 5 (E 1)
+    let a0 := promoteCh 6 (px f.alpha 0)
+    let a1 := promoteCh 6 (px f.alpha 1)
+    if f.indexMode = 1 then ((closestAlpha 2 a0 a1 al).1, (closestRgb 3 c0 c1 rgb).1)
+    else ((closestRgb 2 c0 c1 rgb).1, (closestAlpha 3 a0 a1 al).1)
+  else if f.mode = 5 then
+    let b := block.map (rotApply f.rotation)
+    ((closestRgb 2 (promoteRgb 7 (E 0)) (promoteRgb 7 (E 1)) (b.map rgbOf)).1,
+     (closestAlpha 2 (promoteCh 8 (px f.alpha 0)) (promoteCh 8 (px f.alpha 1)) (b.map fun p => px p 3)).1)
+  else if f.mode = 6 then
+    ((closestRgba 4 (pPromoteRgba 7 (E 0) (P 0)) (pPromoteRgba 7 (E 1) (P 1)) block).1, 0)
+  else if f.mode = 7 then
+    let ix := fun s => (closestRgba 2 (pPromoteRgba 5 (E (2 * s)) (P (2 * s))) (pPromoteRgba 5 (E (2 * s + 1)) (P (2 * s + 1)))
+      (subsetSlice 2 sub block [] s)).1
+    (merge2 2 (implP2 f.partition) (ix 0) (ix 1), 0)
+  else (0, 0)
+
+/-- the block the encoder emits for `block` once the search has settled on the parameters of `f` -/
+def emit (f : Fields) (block : List (List Nat)) : Nat :=
+  let ix := indexesFor f block
+  write { f with indexes := ix.1, indexes2 := ix.2 }
+
 instance (f : Fields) : Decidable f.WF := by unfold Fields.WF; exact inferInstance
 
 end Dds.Enc7
